@@ -320,39 +320,25 @@ def matchPart (after : Nat) : VSeg → List Bytes → MatchRes (Bytes × List By
       | none => .malformed
       | some v => .ok (v, cs.drop (cs.length - after))
 
+def MatchRes.bind {α β : Type} : MatchRes α → (α → MatchRes β) → MatchRes β
+  | .ok a, f => f a
+  | .notMatch, _ => .notMatch
+  | .malformed, _ => .malformed
+  | .fault, _ => .fault
+
 def matchParts : List VSeg → Nat → List Bytes → MatchRes (List Bytes × List Bytes)
   | [], _, cs => .ok ([], cs)
   | p :: ps, after, cs =>
-    match matchPart (ps.length + after) p cs with
-    | .ok (v, cs') =>
-      match matchParts ps after cs' with
-      | .ok (vs, cs'') => .ok (v :: vs, cs'')
-      | .notMatch => .notMatch
-      | .malformed => .malformed
-      | .fault => .fault
-    | .notMatch => .notMatch
-    | .malformed => .malformed
-    | .fault => .fault
+    (matchPart (ps.length + after) p cs).bind fun r =>
+      (matchParts ps after r.2).bind fun r' => .ok (r.1 :: r'.1, r'.2)
 
 def matchSegs : List Seg → List Bytes → MatchRes Captures
   | [], cs => if cs.isEmpty then .ok [] else .notMatch
   | .plain p :: ss, cs =>
-    match matchPart (atomsOf ss).length p cs with
-    | .ok (_, cs') => matchSegs ss cs'
-    | .notMatch => .notMatch
-    | .malformed => .malformed
-    | .fault => .fault
+    (matchPart (atomsOf ss).length p cs).bind fun r => matchSegs ss r.2
   | .var x ps :: ss, cs =>
-    match matchParts ps (atomsOf ss).length cs with
-    | .ok (vs, cs') =>
-      match matchSegs ss cs' with
-      | .ok b => .ok ((x, joinSlash vs) :: b)
-      | .notMatch => .notMatch
-      | .malformed => .malformed
-      | .fault => .fault
-    | .notMatch => .notMatch
-    | .malformed => .malformed
-    | .fault => .fault
+    (matchParts ps (atomsOf ss).length cs).bind fun r =>
+      (matchSegs ss r.2).bind fun b => .ok ((x, joinSlash r.1) :: b)
 
 /-- `MatchAndEscape` of the pattern compiled from `t`, over the AST. -/
 def matchTmpl (t : Tmpl) (components : List Bytes) (verb : Bytes) : MatchRes Captures :=
